@@ -1,2 +1,7 @@
-/-! Driver for C06 (stub: not built yet). -/
-def main : IO Unit := pure ()
+import Drivers.Proto
+import PymocaVerif.Model.ObjGraphJson
+/-! Driver for C06: `copy.deepcopy` with pymoca's two hooks on an exported object graph (shape of
+    the copy, hooks left on the originals), computed by the `ObjGraph` model. -/
+open Lean Drivers PymocaVerif.ObjGraph
+
+def main : IO Unit := serve handleGraph
